@@ -1211,7 +1211,7 @@ func init() {
 		Setup: vStatusSetup,
 		Run:   vRunStatus,
 		Meta: vMeta{Level: "fault_enumeration",
-			Rule: "four case families. replay: 1-3 goroutines push 5-60 updates (the real topics with values of the real persisted types, synthetic topics, 25 % republished earlier values) into the real RunClientUpdater, then FENCE_A, SENDALL, FENCE_B; the SUB socket's record is the linearisation and the replay between the fences must contain every topic published so far in this process exactly once with its latest body (NEWDASTARD, which the code documents as stateless, excepted). persist: 3-25 updates of the persistent topics (plus unchanged republications and non-persistent traffic), then the file written by the real saveState (delay 25 ms via hook) is read back by a fresh viper with UnmarshalKey into the start-up types and compared with the latest values (source configurations, record lengths, trigger settings except edge-multi, output base path, map file). crash: a child process saves version 1 twice, changes all persistent topics and is SIGKILLed by the hook at one of the five points between saveState's file-system steps (or not at all), and, with strace as the injector, on entry to each file-system call (openat, write, close, unlinkat, linkat, renameat) the final save makes; the parent checks that ~/.dastard/config.yaml exists, is non-empty, parses and equals version 1 or version 2 completely; non-trivial = case completed",
+			Rule: "four case families. replay: 1-3 goroutines push 5-60 updates (the real topics with values of the real persisted types, synthetic topics, 25 % republished earlier values) into the real RunClientUpdater, then FENCE_A, SENDALL, FENCE_B; the SUB socket's record is the linearisation and the replay between the fences must contain every topic published so far in this process exactly once with its latest body (NEWDASTARD, which the code documents as stateless, excepted). persist: 3-25 updates of the persistent topics (plus unchanged republications and non-persistent traffic), then the file written by the real saveState (delay 25 ms via hook) is read back by a fresh viper with UnmarshalKey into the start-up types and compared with the latest values (source configurations, record lengths, trigger settings except edge-multi, output base path, map file). crash: a child process saves version 1 twice, changes all persistent topics and is SIGKILLed by the hook at one of the five points between saveState's file-system steps (or not at all), and, with strace as the injector, on entry to each file-system call (openat, write, close, unlinkat, linkat, renameat) the final save makes; the parent checks that ~/.dastard/config.yaml exists, is non-empty, parses and equals version 1 or version 2 completely; non-trivial = case completed; after half of the syscall kills and a third of the early hook kills the real program is also started on a copy of the directory the kill left behind",
 			Assumptions: []string{"libzmq delivers in order on one connection and loses nothing once the subscription is established (receive high-water mark 0)", "a process kill, not a power loss: data written before the kill are in the page cache",
 				"edge-multi settings are documented as not restored", "NEWDASTARD is an announcement the code documents as not stored"},
 			Guards: map[string]map[string]int{
